@@ -13,14 +13,18 @@ LEVEL = "model_checking"
 
 def configs(ctx):
     q = [C.base_cfg(K=1), C.base_cfg(K=2), C.base_cfg(K=2, selector="thr1"), C.base_cfg(K=3, selector="all"),
-         C.base_cfg(K=100)]
+         C.base_cfg(K=100),
+         # a non-pruning selector on matrices whose weight-1 entries are rendered as probabilities of 1e-6: what the DEFAULT
+         # selector would prune must still be expanded (the set of returned transcripts is that of the unpruned search)
+         C.base_cfg(K=100, selector="all", tiny=True)]
     if ctx.tier == "quick":
         return q
     return q + [C.base_cfg(K=100, selector="thr1"), C.base_cfg(K=4, selector="thr1"),
                 C.base_cfg(T=4, K=2), C.base_cfg(T=4, K=3, selector="thr1"), C.base_cfg(T=4, K=100),
                 C.base_cfg(T=3, D=5, K=2), C.base_cfg(T=3, D=5, K=100, selector="all"),
                 C.base_cfg(T=3, NC=3, D=3, K=2), C.base_cfg(T=3, NC=3, D=3, K=4), C.base_cfg(T=3, NC=3, D=3, K=100),
-                C.base_cfg(T=5, NC=2, D=2, K=2), C.base_cfg(T=5, NC=2, D=2, K=100)]
+                C.base_cfg(T=5, NC=2, D=2, K=2), C.base_cfg(T=5, NC=2, D=2, K=100),
+                C.base_cfg(T=4, K=100, selector="all", tiny=True), C.base_cfg(T=3, NC=3, D=3, K=100, selector="all", tiny=True)]
 
 
 INVS = ["NoOverCount", "ExactUnpruned", "RejectOnly"]
@@ -71,7 +75,7 @@ def judge(ctx, cfg, traces):
 
 def _lab(cfg):
     return "T=%d NC=%d D=%d K=%d sel=%s%s" % (cfg["T"], cfg["NC"], cfg["D"], cfg["K"], cfg["selector"],
-                                             " unnorm" if cfg.get("Unnorm") else "")
+                                             (" unnorm" if cfg.get("Unnorm") else "") + (" tiny" if cfg.get("tiny") else ""))
 
 
 def run(ctx):
